@@ -430,6 +430,15 @@ def run(tier):
                      r['argument'], nontrivial=True, loc=r['loc'])
     for f_ in sub.findings:
         chk.violation('C13.R5', f_.where, f_.construct, f_.msg, f_.loc)
+    # reduplicate pairs a node's old children with the rebuilt ones by
+    # iterating the node: iteration must yield all of data (shared with
+    # C12.R7)
+    from . import c12
+    sub12 = Check('C12', 'other', tier, [], [])
+    chk.guard(c12.rule_r7, sub12, prog)
+    chk.adopt('C13.R6', 'iterating a node yields exactly its children, so '
+              'zip(node, rebuilt children) compares each child with its own '
+              'copy (shared with C12.R7)', sub12)
     extra = None
     if tier == 'thorough':
         from .. import selftest
